@@ -75,6 +75,10 @@ def run_for(ctx, prop, rule=None, package=None):
             continue
         r = rule or f"{prop}.w-{w['package']}"
         ok = evaluate(ctx, fx, c, r)
+        dyn = (getattr(fx, "dyn_info", None) or {}).get(w["package"])
+        if dyn:
+            # computed from the generator's templates on this run (vlib/dynwit.py): record what was generated
+            ctx.extra.setdefault("computed_witnesses", {})[w["package"]] = {"names": len(dyn["names"]), "all_names": dyn["names"]}
         n += 1
         if len(ctx.samples) < 10:
             ctx.sample({"witness": c["origin"], "expect": w["expect"], "markers": w["markers"], "as_expected": ok, "what": w.get("what", "")})
